@@ -343,6 +343,8 @@ def flatten_add(node):
 
 IDC = " and \\\n                    struct.unpack('<H', pk.data[1:3])[0] == element.ident:"
 VARIANTS = [
+    M('R12', PAR, "            self.ctype = self.types[metadata & 0x0F][0]\n            self.pytype = self.types[metadata & 0x0F][1]", "            self.ctype = self.types[metadata & 0x07][0]\n            self.pytype = self.types[metadata & 0x07][1]", 'type mask loses the unsigned bit'),
+    M('R12', PAR, "    RW_ACCESS = 0\n    RO_ACCESS = 1\n", "    RO_ACCESS = 0\n    RW_ACCESS = 1\n", 'access numbers swapped against stored caches'),
     M('R10', PAR, "                self._req_param = -1\n                try:", "                try:", 'fetcher stays tuned to the answered id'),
     M('R10', PAR, "        if pk.channel == MISC_CHANNEL and pk.data[0] == MISC_GET_EXTENDED_TYPE:\n            var_id", "        if pk.channel == MISC_CHANNEL:\n            var_id", 'any MISC packet answers (F-03a)'),
     M('R10', PAR, "                self._req_param = struct.unpack('<H', pk.data[1:3])[0]\n                self._cf.send_packet(pk, expected_reply=(tuple(pk.data[:3])))",
